@@ -379,28 +379,28 @@ func (r *Report) write(path string, P *Program) error {
 	}
 	level := "other"
 	cov := map[string]interface{}{
-		"explanation": "bounded symbolic execution of the real code: go/ssa of /repo's current working tree (plus the needed standard-library bodies) is interpreted over bit-vector terms; every branch on symbolic data forks after a solver feasibility query, every vAssert / implicit panic check is a solver query (unsat = holds for every value within the bounds below). " + r.Spec.Explanation,
-		"evaluations":         evals,
-		"distinct_nontrivial": nontrivial,
-		"rule":                "one evaluation = one complete execution path of a harness (a distinct decision vector); non-trivial = the path took at least one decision on symbolic data or discharged at least one solver-decided assertion. " + r.Spec.Rule,
-		"samples":             samples,
-		"obligations":         obligations,
-		"discharged":          discharged,
-		"exhaustive":          r.Exit == 0,
-		"harnesses":           r.Harnesses,
-		"queries":             queries,
-		"solver_s":            solverS,
-		"solver":              "z3 4.8.12 (QF_BV, incremental, one process per worker)",
-		"workers":             r.Workers,
-		"load_s":              r.LoadS,
-		"outside_bounds":      r.Spec.Outside,
-		"functions_encoded":   fns,
+		"explanation":                  "bounded symbolic execution of the real code: go/ssa of /repo's current working tree (plus the needed standard-library bodies) is interpreted over bit-vector terms; every branch on symbolic data forks after a solver feasibility query, every vAssert / implicit panic check is a solver query (unsat = holds for every value within the bounds below). " + r.Spec.Explanation,
+		"evaluations":                  evals,
+		"distinct_nontrivial":          nontrivial,
+		"rule":                         "one evaluation = one complete execution path of a harness (a distinct decision vector); non-trivial = the path took at least one decision on symbolic data or discharged at least one solver-decided assertion. " + r.Spec.Rule,
+		"samples":                      samples,
+		"obligations":                  obligations,
+		"discharged":                   discharged,
+		"exhaustive":                   r.Exit == 0,
+		"harnesses":                    r.Harnesses,
+		"queries":                      queries,
+		"solver_s":                     solverS,
+		"solver":                       "z3 4.8.12 (QF_BV, incremental, one process per worker)",
+		"workers":                      r.Workers,
+		"load_s":                       r.LoadS,
+		"outside_bounds":               r.Spec.Outside,
+		"functions_encoded":            fns,
 		"stdlib_functions_interpreted": stdFns,
-		"stubs_hit":           intr,
-		"source_files_sha256_prefix": files,
-		"inconclusive":        r.Inconclusive,
-		"known_findings_reported": keys(r.KnownLines),
-		"exit":                r.Exit,
+		"stubs_hit":                    intr,
+		"source_files_sha256_prefix":   files,
+		"inconclusive":                 r.Inconclusive,
+		"known_findings_reported":      keys(r.KnownLines),
+		"exit":                         r.Exit,
 	}
 	ev := map[string]interface{}{
 		"property_id": r.Prop,
